@@ -177,19 +177,57 @@ class Acc:
 # build
 
 
-def build_harness(profile="release"):
-    """Rebuild halosrv against /repo's current working tree. Failure => inconclusive."""
+FN_GROUPS = ["fn_formulas", "fn_guards", "fn_asset", "fn_factory", "fn_router"]
+DROPPED_FILE = os.path.join(HARNESS, "target", "DROPPED_FN_GROUPS")
+
+
+def _cargo_build(features):
     env = dict(os.environ)
     env["CARGO_NET_OFFLINE"] = "true"
     env.pop("RUSTFLAGS", None)
-    t0 = time.time()
     cmd = ["cargo", "build", "--offline", "--release"]
-    for attempt in range(2):
-        r = subprocess.run(cmd, cwd=HARNESS, env=env, stdout=subprocess.PIPE,
-                           stderr=subprocess.STDOUT, text=True)
-        if r.returncode == 0:
-            return time.time() - t0
-    raise Inconclusive("harness build failed: " + r.stdout[-1500:].replace("\n", " | "))
+    if features is not None:
+        cmd += ["--no-default-features", "--features", ",".join(features) if features else ""]
+        if not features:
+            cmd = cmd[:-2]
+    return subprocess.run(cmd, cwd=HARNESS, env=env, stdout=subprocess.PIPE, stderr=subprocess.STDOUT, text=True)
+
+
+def build_harness(profile="release"):
+    """Rebuild halosrv against /repo's current working tree. Failure => inconclusive.
+    If the full adapter does not compile (a helper function in /repo changed its signature), the groups of direct helper
+    calls are dropped one by one until it does; the dropped groups are recorded and the function-level legs that need
+    them report themselves as skipped, while the system-level legs (contract entry points only) still run."""
+    t0 = time.time()
+    r = _cargo_build(None)
+    if r.returncode != 0:
+        r = _cargo_build(None)
+    dropped = []
+    if r.returncode != 0:
+        import itertools
+        ok = False
+        for k in (1, 2, 3, 4, 5):
+            for drop in itertools.combinations(FN_GROUPS, k):
+                keep = [g for g in FN_GROUPS if g not in drop]
+                r2 = _cargo_build(keep)
+                if r2.returncode == 0:
+                    dropped, ok = list(drop), True
+                    break
+            if ok:
+                break
+        if not ok:
+            raise Inconclusive("harness build failed: " + r.stdout[-1500:].replace("\n", " | "))
+    os.makedirs(os.path.dirname(DROPPED_FILE), exist_ok=True)
+    with open(DROPPED_FILE, "w") as f:
+        f.write("\n".join(dropped))
+    return time.time() - t0
+
+
+def dropped_groups():
+    try:
+        return [l for l in open(DROPPED_FILE).read().split() if l]
+    except OSError:
+        return []
 
 
 # ---------------------------------------------------------------------------
@@ -270,6 +308,7 @@ def run_check(prop, modname, tier, seed, floors_fn, rule, level_assumptions, ext
         "floors_missed": floor_msgs,
         "harness_faults": acc.faults[:5],
         "build_s": round(build_s, 1),
+        "adapter_helper_groups_dropped": dropped_groups(),
     }
     status = "held"
     if new_viol:
@@ -301,6 +340,9 @@ def run_check(prop, modname, tier, seed, floors_fn, rule, level_assumptions, ext
           % (prop, tier, seed, acc.evaluations, len(acc.classes), wall, build_s))
     for k, v in sorted(acc.counters.items()):
         print("  %-46s %d" % (k, v))
+    if dropped_groups():
+        print("  NOTE: the adapter could only be built without the direct helper calls %s (their signatures changed in /repo); "
+              "function-level legs using them were skipped" % dropped_groups())
     for fid, n in sorted(acc.known.items()):
         f = known_cfg.get(fid)
         what = f["what"] if f else fid
